@@ -86,7 +86,7 @@ def run_shard(spec: dict) -> ShardResult:
         structure = {"axes": []}
         for axis in range(len(info["shape"])):
             if info["periodic"][axis]:
-                structure["axes"].append({"periodic": "periodic"})
+                structure["axes"].append({"periodic": "anti-periodic" if rng.random() < 0.3 else "periodic"})
                 continue
             sides = []
             for upper in (False, True):
